@@ -439,6 +439,10 @@ class OpsMixin:
         if isinstance(a, (SymDT, SymTD)) or isinstance(b, (SymDT, SymTD)):
             from . import dtmodels
             return dtmodels.compare(self, t, a, b)
+        if (isinstance(a, LazyStr) or isinstance(b, LazyStr)) and t in (ast.Eq, ast.NotEq):
+            r = self.rope_eq(a, b)
+            if r is not None:
+                return self.not_(r) if t is ast.NotEq else r
         if isinstance(a, LazyStr):
             a = self.force_str(a)
         if isinstance(b, LazyStr):
@@ -574,6 +578,77 @@ class OpsMixin:
             res = self.or_(c1, self.and_(ceq, res))
         return res
 
+    def rope_eq(self, a, b):
+        """equality of unexpanded strings without expanding the ints, when that is exact; else None"""
+        def norm(x):
+            if isinstance(x, str):
+                return [x]
+            if not isinstance(x, LazyStr):
+                return None
+            out = []
+            for p in x.parts:
+                if isinstance(p, str):
+                    if out and isinstance(out[-1], str):
+                        out[-1] += p
+                    elif p:
+                        out.append(p)
+                elif isinstance(p, tuple) and p[0] == "int":
+                    out.append(p)
+                else:
+                    return None
+            # every int part must be delimited by non-digit literals
+            for i, p in enumerate(out):
+                if isinstance(p, tuple):
+                    if i > 0 and (isinstance(out[i - 1], tuple) or out[i - 1][-1].isdigit() or out[i - 1][-1] == "-"):
+                        return None
+                    if i + 1 < len(out) and (isinstance(out[i + 1], tuple) or out[i + 1][0].isdigit()):
+                        return None
+            return out
+        na, nb = norm(a), norm(b)
+        if na is None or nb is None:
+            return None
+        if len(nb) == 1 and isinstance(nb[0], str) and not (len(na) == 1 and isinstance(na[0], str)):
+            na, nb = nb, na
+        if len(na) == 1 and isinstance(na[0], str) and any(isinstance(p, tuple) for p in nb):
+            # concrete string against a rope: match literals, parse ints
+            text = na[0]
+            res = True
+            pos = 0
+            for i, p in enumerate(nb):
+                if isinstance(p, str):
+                    if not text.startswith(p, pos):
+                        return False
+                    pos += len(p)
+                else:
+                    nxt = nb[i + 1] if i + 1 < len(nb) else None
+                    end = len(text) if nxt is None else text.find(nxt[0], pos)
+                    # the int literal extends to the first occurrence of the next literal's first char that is not part of a number
+                    j = pos
+                    if j < len(text) and text[j] == "-":
+                        j += 1
+                    while j < len(text) and text[j].isdigit():
+                        j += 1
+                    lit = text[pos:j]
+                    if lit in ("", "-") or (lit.lstrip("-") != "0" and lit.lstrip("-").startswith("0")) or lit == "-0":
+                        return False
+                    res = self.and_(res, self.cmp("Eq", p[1], int(lit)))
+                    pos = j
+            if pos != len(text):
+                return False
+            return res
+        if len(na) != len(nb):
+            return None
+        res = True
+        for p, q in zip(na, nb):
+            if isinstance(p, str) != isinstance(q, str):
+                return None
+            if isinstance(p, str):
+                if p != q:
+                    return False
+            else:
+                res = self.and_(res, self.cmp("Eq", p[1], q[1]))
+        return res
+
     # boolean combinators over python bool / SymBool
     def not_(self, r):
         if isinstance(r, SymBool):
@@ -601,7 +676,7 @@ class OpsMixin:
     def contains(self, container, item):
         if isinstance(container, LazyStr):
             container = self.force_str(container)
-        if isinstance(item, LazyStr):
+        if isinstance(item, LazyStr) and isinstance(container, (str, SymStr)):
             item = self.force_str(item)
         if isinstance(container, (str, SymStr)):
             if not isinstance(item, (str, SymStr)):
